@@ -217,13 +217,13 @@ class Cluster:
 
     def start_leader(self):
         self.lport = free_port()
-        self.leader = self._start("leader", self.lport, ["--aof_ring_buffer_size", str(self.ring), "--aof_ring_buffer_max_size", str(self.ringmax)])
+        self.leader = self._start("leader", self.lport, ["--aof_ring_buffer_size", str(self.ring), "--aof_ring_buffer_max_size", str(self.ringmax)] + getattr(self, "leader_extra", []))
         self.proxy = Proxy(self.lport)
 
     def restart_leader(self):
         """SIGKILL the leader and start it again on the SAME data dir and port (the proxy keeps pointing at it)"""
         self._kill(self.leader)
-        self.leader = self._start("leader", self.lport, ["--aof_ring_buffer_size", str(self.ring), "--aof_ring_buffer_max_size", str(self.ringmax)])
+        self.leader = self._start("leader", self.lport, ["--aof_ring_buffer_size", str(self.ring), "--aof_ring_buffer_max_size", str(self.ringmax)] + getattr(self, "leader_extra", []))
 
     def start_follower(self, empty=False):
         if empty:
@@ -785,13 +785,36 @@ class Run:
 
 def scenario(seed, root, kind):
     """kind: 'basic' (full on empty dir, resume after a short gap, full resync after a long gap) or one of the thorough ones."""
-    ring = {"basic": 2048, "cuts": 4096, "filecut": 2048, "filecut0": 2048, "filekill": 4096, "emptydir": 2048, "expiredrecord": 2048, "livegap": 2048, "bigvalue": 262144, "leaderrestart": 2048}[kind]
+    ring = {"basic": 2048, "cuts": 4096, "filecut": 2048, "filecut0": 2048, "filekill": 4096, "emptydir": 2048, "expiredrecord": 2048, "livegap": 2048, "bigvalue": 262144, "leaderrestart": 2048, "rotated": 2048}[kind]
     run = Run(seed, root, ring=ring, label=kind)
     cl = run.cl
     cap = ring // 64
     try:
+        if kind == "rotated":
+            cl.leader_extra = ["--aof_file_rewrite_size", str(12 + 64 * 30 - 32)]      # an append file holds 30 records
         cl.start_leader()
         wl = run.wl = Workload(seed, cl.lport)
+        if kind == "rotated":
+            # the leader's log has ROTATED (older records live in rewrite.aof / an older append file, record numbers restart at 1 in the
+            # current file) when a follower with an empty dir asks for everything: the file part must still carry every record up to the boundary
+            c = wl.c
+            n = 30 + run.rnd.randrange(3, 12)
+            for i in range(n):
+                c.cmd("LOCK", "c09rot%010d" % i, "LOCK_ID", "c09rid%010d" % i, "TIMEOUT", 0, "EXPRIED", 600 | ZERO_AOF, "COUNT", 0)
+            ldir = os.path.join(cl.dir("leader"), "data")
+            t0 = time.time()
+            while time.time() - t0 < 12 and not (os.path.exists(os.path.join(ldir, "rewrite.aof")) and os.path.exists(os.path.join(ldir, "append.aof.2"))):
+                time.sleep(0.2)
+            rotated = os.path.exists(os.path.join(ldir, "append.aof.2"))
+            time.sleep(1.4)
+            run.note(f"leader up with 30-record append files, {n} long-lived holds journalled at once; log rotated: {rotated} (files: {sorted(f for f in os.listdir(ldir) if 'aof' in f)})")
+            cl.start_follower(empty=True)
+            run.note("follower started on an empty data dir (full transfer across the rotation)")
+            run.settle("full transfer after the leader's log rotated", timeout=20)
+            run.log_pos = len(cl.log_text("leader"))
+            wl.run(run.rnd.randrange(5, 15), short=False)
+            run.settle("live stream after a full transfer across a rotation")
+            return run
         if kind == "expiredrecord":
             # a hold whose first record has a short deadline and is extended by a re-lock; a value set by a short-lived lock
             c = wl.c
@@ -1006,7 +1029,7 @@ def _gap_restart(run, short):
 
 
 # ---- orchestration (called from c09.py) -----------------------------------------------------------------------------------
-def run_scenarios(ctx, jobs, workers=4):
+def run_scenarios(ctx, jobs, workers=5):
     """jobs: [(seed, kind)] → list of Run (or (seed, kind, exception)); scenarios run concurrently, each with its own processes and ports"""
     from concurrent.futures import ThreadPoolExecutor
     root = os.path.join(ctx.tmp, "c09-eproc")
